@@ -29,7 +29,7 @@ SOpt == \E m \in MaxIterSet : \E ff \in BOOLEAN, vb \in BOOLEAN : \E tl \in TolS
             /\ OptCallEffect(m, ff, [i \in 1..tmpl.nv |-> verts[i].pose + 1]) /\ obs' = [op |-> "OptCall"]
             /\ arg' = [NoArg EXCEPT !.op = "OptCall", !.maxIter = m, !.fixFirst = ff, !.verbose = vb, !.tol = tl]
             /\ nopt' = nopt + 1 /\ UNCHANGED tmpl
-SReload == /\ ReloadEffect(FALSE, [i \in 1..tmpl.nv |-> verts[i].pose + 100], <<>>) /\ obs' = [op |-> "Reload", raised |-> FALSE]
+SReload == /\ ReloadEffect(FALSE, FALSE, [i \in 1..tmpl.nv |-> verts[i].pose + 100], <<>>) /\ obs' = [op |-> "Reload", raised |-> FALSE]
            /\ arg' = [NoArg EXCEPT !.op = "Reload"] /\ UNCHANGED <<tmpl, nopt>>
 SSetPose == \E i \in 1..tmpl.nv :
             /\ SetPoseEffect(i, verts[i].pose + 10000) /\ obs' = [op |-> "SetPose"]
